@@ -117,6 +117,9 @@ func runNode(c *Ctx, w *ws.Workspace, ops []any) (map[string]map[string]any, err
 	sc := bufio.NewScanner(f)
 	sc.Buffer(make([]byte, 1<<20), 1<<26)
 	for sc.Scan() {
+		if len(bytes.TrimSpace(sc.Bytes())) == 0 {
+			continue
+		}
 		dec := json.NewDecoder(bytes.NewReader(sc.Bytes()))
 		dec.UseNumber()
 		m := map[string]any{}
